@@ -285,6 +285,11 @@ impl Verify for Residual {
             self.remainders().len() == self.block_size(),
             "must have the same length as the block size"
         )?;
+        verify_true!(
+            "warmup_length",
+            self.warmup_length() <= self.block_size(),
+            "must not exceed the block size"
+        )?;
         for t in 0..self.warmup_length() {
             verify_true!(
                 "quotients[{t}]",
@@ -321,6 +326,16 @@ impl Verify for Residual {
             "partition_order",
             partition_len > 0,
             "must not yield more partitions than samples in the block"
+        )?;
+        verify_true!(
+            "partition_order",
+            partition_len * partition_count == self.block_size(),
+            "must divide the block into partitions of equal length"
+        )?;
+        verify_true!(
+            "warmup_length",
+            self.warmup_length() <= partition_len,
+            "must not exceed the length of the first partition"
         )?;
         for t in 0..self.block_size() {
             let rice_p = self.rice_params()[t / partition_len];
